@@ -292,11 +292,36 @@ func tcpOptions(r *vlib.Rand) []byte {
 			o = append(o, r.Bytes(8)...) // timestamps
 		case 5:
 			o = append(o, 1) // NOP
-		case 6: // MPTCP with a PRNG subtype and a plausible length
-			sub := byte(r.Intn(9))
-			ln := []int{12, 12, 20, 8, 10, 12, 12, 12, 4}[sub]
-			o = append(o, 30, byte(ln), sub<<4|byte(r.Intn(16)))
-			o = append(o, r.Bytes(ln-3)...)
+		case 6: // MPTCP: one of the subtypes, with a length the option format defines for it
+			switch sub := r.Intn(8); sub {
+			case 0: // MP_CAPABLE: 4 / 12 / 20
+				ln := []int{4, 12, 20}[r.Intn(3)]
+				o = append(o, 30, byte(ln), 0x00|1, 0x81)
+				o = append(o, r.Bytes(ln-4)...)
+			case 1: // MP_JOIN: 12 / 16 / 24
+				ln := []int{12, 16, 24}[r.Intn(3)]
+				o = append(o, 30, byte(ln), 0x10|byte(r.Intn(2)), r.Byte())
+				o = append(o, r.Bytes(ln-4)...)
+			case 2: // DSS with a 4-byte data ACK only
+				o = append(o, 30, 8, 0x20, 0x01)
+				o = append(o, r.Bytes(4)...)
+			case 3: // REMOVE_ADDR
+				o = append(o, 30, 4, 0x40, r.Byte())
+			case 4: // MP_PRIO: 3 / 4
+				if r.Bool() {
+					o = append(o, 30, 3, 0x50|byte(r.Intn(2)))
+				} else {
+					o = append(o, 30, 4, 0x50|byte(r.Intn(2)), r.Byte())
+				}
+			case 5: // MP_FAIL
+				o = append(o, 30, 12, 0x60, 0)
+				o = append(o, r.Bytes(8)...)
+			case 6: // MP_FASTCLOSE
+				o = append(o, 30, 12, 0x70, 0)
+				o = append(o, r.Bytes(8)...)
+			default: // MP_TCPRST
+				o = append(o, 30, 4, 0x80|byte(r.Intn(16)), r.Byte())
+			}
 		default:
 			ln := r.Range(2, 8)
 			o = append(o, byte(r.Range(9, 29)), byte(ln))
@@ -332,7 +357,7 @@ func ConstructedOne(r *vlib.Rand) []byte {
 	switch r.Intn(8) {
 	case 0, 1:
 		proto = 6
-		seg = pk.TCP(pk.TCPH{Sport: r.U16(), Dport: r.U16(), Seq: r.U32(), Ack: r.U32(), Flags: uint16(r.Intn(512)), Window: r.U16(), Options: tcpOptions(r)}, payload, pseudo(6))
+		seg = pk.TCP(pk.TCPH{Sport: uint16(40000 + r.Intn(1000)), Dport: uint16(41000 + r.Intn(1000)), Seq: r.U32(), Ack: r.U32(), Flags: uint16(r.Intn(512)), Window: r.U16(), Options: tcpOptions(r)}, payload, pseudo(6))
 	case 2:
 		proto = 17
 		seg = pk.UDP(uint16(40000+r.Intn(1000)), uint16(40000+r.Intn(1000)), payload, pseudo(17))
